@@ -2,13 +2,13 @@
 
 RM = "runtime monitoring: "
 TECHNIQUE = {
-    "C01": RM + "reference-formatter + independent-parser monitor over randomized calls through every entry point and call form",
-    "C02": RM + "reference-numeral monitor (independent decimal rendering, float round-trip, u128 duration arithmetic) over boundary/random values; exhaustive 32-bit sweeps in thorough",
-    "C03": RM + "fault injection at a scripted sink, all accept/refuse sequences enumerated; per-call oracle over sink log / handler log / result",
-    "C04": RM + "decoration monitor (tag + container sections vs configured defaults ++ per-call) over random client configurations",
-    "C05": RM + "model-based trace checker (pending-lines model, rule F1) over small-scope-enumerated and random histories of the real writer, spy sink and real sockets (interposed sendto)",
-    "C06": RM + "model-based trace checker (rule F2: conservation, order, flush/drop) over enumerated and random histories incl. flush delegation through client and queuing sink",
-    "C07": RM + "fault injection: every ok/fail/interrupted assignment to the underlying write attempts (DFS), random failure bursts, full spy channel, scripted errno / kernel EAGAIN at an interposed sendto; model-based trace checker (rules F1-F3)",
+    "C01": RM + "reference-formatter + independent-parser monitor over randomized calls through every entry point and call form; thorough adds a coverage-guided session (libFuzzer picks the bytes that drive the same generator, the same monitor judges every execution)",
+    "C02": RM + "reference-numeral monitor (independent decimal rendering, float round-trip, u128 duration arithmetic) over boundary/random values; exhaustive 32-bit sweeps in thorough; thorough adds a coverage-guided session (libFuzzer picks the bytes that drive the same generator, the same monitor judges every execution)",
+    "C03": RM + "fault injection at a scripted sink, all accept/refuse sequences enumerated; per-call oracle over sink log / handler log / result; thorough adds a coverage-guided session (libFuzzer picks the bytes that drive the same generator, the same monitor judges every execution)",
+    "C04": RM + "decoration monitor (tag + container sections vs configured defaults ++ per-call) over random client configurations; thorough adds a coverage-guided session (libFuzzer picks the bytes that drive the same generator, the same monitor judges every execution)",
+    "C05": RM + "model-based trace checker (pending-lines model, rule F1) over small-scope-enumerated and random histories of the real writer, spy sink and real sockets (interposed sendto); thorough adds a coverage-guided session (libFuzzer picks the bytes that drive the same generator, the same monitor judges every execution)",
+    "C06": RM + "model-based trace checker (rule F2: conservation, order, flush/drop) over enumerated and random histories incl. flush delegation through client and queuing sink; thorough adds a coverage-guided session (libFuzzer picks the bytes that drive the same generator, the same monitor judges every execution)",
+    "C07": RM + "fault injection: every ok/fail/interrupted assignment to the underlying write attempts (DFS), random failure bursts, full spy channel, scripted errno / kernel EAGAIN at an interposed sendto; model-based trace checker (rules F1-F3); thorough adds a coverage-guided session (libFuzzer picks the bytes that drive the same generator, the same monitor judges every execution)",
     "C08": RM + "offline history checker (exactly-once, FIFO, real-time order, one-at-a-time) over enumerated sequential and sampled concurrent histories with a gated wrapped sink; bounded progress decided from /proc thread state",
     "C09": RM + "drop matrix (every occupancy at last drop) + forced stop windows via schedule hooks; release of the wrapped sink and thread termination observed via Drop event and /proc",
     "C10": RM + "exact capacity oracle with the worker parked inside a gated sink, blocked-call watchdog on the caller's /proc state, tolerant bounds under concurrency",
@@ -20,8 +20,8 @@ TECHNIQUE = {
     "C16": RM + "fault injection: all ok/err patterns enumerated with and without handler; log checker (exactly one handler call, same error, same thread, before next delivery)",
     "C17": RM + "differential monitor: macro vs explicit chain on the same global client, argument-evaluation counters, one process per global configuration",
     "C18": RM + "controlled scheduler enumerating all interleavings of real threads through a tracing shim + online vector-clock (happens-before) race check + set-once value oracle; Miri (data races, weak memory, UB) and ThreadSanitizer as independent observers",
-    "C19": RM + "model-based trace checker (rule F4: a write happens only when it must, and then carries everything pending) over enumerated and random histories",
-    "C20": RM + "hostile-input exploration under catch_unwind + panic hook + sub-process exit status, overflow checks proven on by a canary",
+    "C19": RM + "model-based trace checker (rule F4: a write happens only when it must, and then carries everything pending) over enumerated and random histories; thorough adds a coverage-guided session (libFuzzer picks the bytes that drive the same generator, the same monitor judges every execution)",
+    "C20": RM + "hostile-input exploration under catch_unwind + panic hook + sub-process exit status, overflow checks proven on by a canary; thorough adds a coverage-guided session (libFuzzer picks the bytes that drive the same generator, the same monitor judges every execution)",
 }
 
 ENGINES = [
@@ -45,6 +45,8 @@ ENGINES = [
      "kind_free_text": "plain racing program run under Miri (many seeds) and ThreadSanitizer"},
     {"name": "hostile_driver", "path": "harness/src/bin/hostile_driver.rs", "serves_properties": ["C20"],
      "kind_free_text": "hostile inputs against all public constructors and calls under catch_unwind"},
+    {"name": "fuzz targets fz_fmt / fz_frame / fz_hostile", "path": "fuzz/fuzz_targets", "serves_properties": ["C01", "C02", "C03", "C04", "C05", "C06", "C07", "C19", "C20"],
+     "kind_free_text": "cargo-fuzz (libFuzzer, no sanitizer) targets that include the driver sources: the input bytes drive the drivers' case generators through Rng::from_bytes, the drivers' oracles judge each execution; run by tools/fuzz_job.py in the thorough tier"},
 ]
 
 NOT_APPLICABLE = {}
